@@ -7,8 +7,7 @@ From OvldV Require Import Model.Order Model.Ty.
 (* does t.__type_order__(o) produce an answer (rather than NotImplemented / no hook)? *)
 Definition answers (t o : ty) : bool :=
   match t with
-  | Uni _ | Int _ | Exa _ _ | Lit _ _ | Fn _ _ _ | TFn _ _ _ => true
-  | Prod _ _ => match o with Prod _ _ => true | _ => false end
+  | Uni _ | Int _ | Exa _ _ | Lit _ _ | Fn _ _ _ | TFn _ _ _ | Prod _ _ => true
   | _ => false
   end.
 
@@ -34,9 +33,10 @@ Fixpoint msym_ne (t1 t2 : ty) {struct t1} : bool :=
       if Nat.eqb o1 o2 then (if Nat.eqb (length a1) (length a2) then all2 a1 a2 else true) else true
   | Prod p1 _, Prod p2 _ =>
       if Nat.eqb (length p1) (length p2) then negb (is_nil p1) && all2 p1 p2 else true
-  | Lit _ b1, Lit _ b2 | Lit _ b1, Fn _ _ b2 | Lit _ b1, TFn _ _ b2
-  | Fn _ _ b1, Lit _ b2 | Fn _ _ b1, Fn _ _ b2 | Fn _ _ b1, TFn _ _ b2
-  | TFn _ _ b1, Lit _ b2 | TFn _ _ b1, Fn _ _ b2 | TFn _ _ b1, TFn _ _ b2 => ty_eqb b1 b2 || msym_ne b1 b2
+  | Lit _ b1, Lit _ b2 | Lit _ b1, Fn _ _ b2 | Lit _ b1, TFn _ _ b2 | Lit _ b1, Prod _ b2
+  | Fn _ _ b1, Lit _ b2 | Fn _ _ b1, Fn _ _ b2 | Fn _ _ b1, TFn _ _ b2 | Fn _ _ b1, Prod _ b2
+  | TFn _ _ b1, Lit _ b2 | TFn _ _ b1, Fn _ _ b2 | TFn _ _ b1, TFn _ _ b2 | TFn _ _ b1, Prod _ b2
+  | Prod _ b1, Lit _ b2 | Prod _ b1, Fn _ _ b2 | Prod _ b1, TFn _ _ b2 => ty_eqb b1 b2 || msym_ne b1 b2
   | _, _ => negb (answers t1 t2 && answers t2 t1)
   end.
 
